@@ -14,6 +14,7 @@ CONSTANTS NCo,       \* coroutines 1..NCo; 0 is the main thread
           MaxSteps,  \* script actions in total
           MaxVals,   \* values passed per transfer: 0..MaxVals
           Tbc,       \* TRUE: scripts may declare to-be-closed variables
+          WithKill,  \* TRUE: a script may exhaust the CPU limit of the context the whole program runs in
           EmitAll,   \* TRUE: one line per transition; FALSE: only complete scripts (simulation)
           ViewHist   \* how many trailing actions the VIEW distinguishes (more = more distinct scripts explored)
 
@@ -30,7 +31,7 @@ VARIABLES st,       \* [1..NCo -> "suspended" | "running" | "normal" | "dead"]
 
 vars == <<st, started, chain, via, cerr, pend, n, kk, out, hist>>
 View == <<st, started, chain, via, [i \in 1..NCo |-> cerr[i] # "none"], [i \in 1..NCo |-> Len(pend[i])], n,
-         [j \in 1..(IF n < ViewHist THEN n ELSE ViewHist) |-> hist[n + 1 - j].a]>>
+         [j \in 1..(IF Len(hist) < ViewHist THEN Len(hist) ELSE ViewHist) |-> hist[Len(hist) + 1 - j].a]>>
 
 Emit(v) == PrintT(<<"@@", ToJson(v)>>)
 Last(s) == s[Len(s)]
@@ -158,7 +159,23 @@ DeclareTbc ==
   /\ Tbc /\ n < MaxSteps /\ r # 0 /\ Len(pend[r]) < 2
   /\ Step(r, [a |-> "tbc"], st, started, chain, via, cerr, Upd(pend, r, Append(pend[r], k)), kk, <<>>)
 
+(* The running thread exhausts the CPU limit of the enclosing context: the termination cannot be intercepted, every
+   thread of the resume chain is unwound and dies WITHOUT running its pending to-be-closed handlers, suspended
+   coroutines stay as they are, and control returns to the code outside the context with status "killed".
+   Nothing of the scripts runs afterwards. *)
+KillHere ==
+  LET r == Running IN
+  /\ WithKill /\ n < MaxSteps
+  /\ st' = [i \in 1..NCo |-> IF \E j \in 2..Len(chain) : chain[j] = i THEN "dead" ELSE st[i]]
+  /\ started' = started /\ chain' = <<0>> /\ via' = [i \in 0..NCo |-> "none"] /\ cerr' = cerr
+  /\ pend' = [i \in 1..NCo |-> IF \E j \in 2..Len(chain) : chain[j] = i THEN <<>> ELSE pend[i]]
+  /\ kk' = kk /\ n' = MaxSteps
+  /\ out' = Append(out, <<"ctx", "killed">>)
+  /\ hist' = Append(hist, [who |-> r, k |-> n + 1, a |-> "kill"])
+  /\ Emit([h |-> hist', ev |-> out', tail |-> <<>>, final |-> st', started |-> started])
+
 Next ==
+  \/ KillHere
   \/ \E c \in 1..NCo, nv \in 0..MaxVals : DoResume(c, nv, "resume") \/ DoResume(c, nv, "wrap")
   \/ \E nv \in 0..MaxVals : Yield(nv) \/ Return(nv)
   \/ \E kind \in {"str", "tbl"} : Error(kind)
